@@ -267,13 +267,94 @@ def fft_task(task):
     return None, part
 
 
+def collision_task(task):
+    """Large argument populations: the cache keys of the two array caches (the memoisation's own key objects, hashed
+    and compared exactly as its lru_cache does) are collected for several hundred thousand distinct realistic
+    likelihood arrays; whenever two different arrays get equal keys the pair is played through the real memoised
+    function back to back and compared with the unmemoised result."""
+    from vlib import cache_shadow
+    from vlib.harness import Partial, describe_exception
+    import phyclone.tree.utils as tu
+
+    part = Partial()
+    try:
+        from phyclone.utils.utils import NumpyArrayListHasher, NumpyTwoArraysHasher
+    except ImportError:
+        part.inconc("cache key classes not found")
+        return None, part
+    rng = np.random.default_rng([task["seed"], task["shard"], 1414])
+    D, G = task["D"], task["G"]
+    grid = np.clip(np.linspace(0, 1, G) / 2.0, 1e-3, 1 - 1e-3)
+    lg, l1g = np.log(grid), np.log1p(-grid)
+    n0 = int(rng.integers(20, 400))
+    arrays = []
+    n = n0
+    while len(arrays) < task["population"]:
+        xs = np.arange(0, n + 1)[:, None]
+        rows = xs * lg[None, :] + (n - xs) * l1g[None, :]
+        if D > 1:
+            rows = np.stack([rows, np.roll(rows, 1, axis=0)][:D] + [rows[::-1]] * (D - 2), axis=1)
+        else:
+            rows = rows[:, None, :]
+        arrays.extend(np.ascontiguousarray(r) for r in rows)
+        n += 1
+    arrays = arrays[:task["population"]]
+    anchor = np.ascontiguousarray(rng.normal(size=(D, G)))
+    try:
+        for which in ("children_recursion", "pairwise_convolution"):
+            seen = {}
+            collisions = []
+            for i, a in enumerate(arrays):
+                k = NumpyArrayListHasher([a]) if which == "children_recursion" else NumpyTwoArraysHasher(a, anchor)
+                k.clear_inputs()
+                j = seen.setdefault(k, i)
+                if j != i and not np.array_equal(arrays[j], a):
+                    collisions.append((j, i))
+            part.count("cache_keys_collected", len(arrays))
+            part.count("evaluations", len(arrays))
+            part.count("distinct_cache_keys_" + which, len(seen))
+            part.count("key_collisions_between_different_arguments", len(collisions))
+            part.see("keys|%s|D%d|G%d|n0=%d" % (which, D, G, n0))
+            for j, i in collisions[:5]:
+                tu.compute_log_S.cache_clear()
+                tu._convolve_two_children.cache_clear()
+                if which == "children_recursion":
+                    tu.compute_log_S([arrays[j]])
+                    got = tu.compute_log_S([arrays[i]])
+                    ref = tu.compute_log_S.__wrapped__(np.array([arrays[i]], order="C"))
+                else:
+                    tu._convolve_two_children(arrays[j], anchor)
+                    got = tu._convolve_two_children(arrays[i], anchor)
+                    ref = tu._convolve_two_children.__wrapped__(arrays[i], anchor)
+                ok, dev = cache_shadow.arrays_agree(got, ref)
+                if not ok:
+                    part.violation("%s: memoised result is that of a different argument (two different arrays share a "
+                                   "cache key)" % which,
+                                   {"shard": task["shard"], "D": D, "G": G, "first": arrays[j].tolist(),
+                                    "second": arrays[i].tolist(), "max_dev": dev})
+                    break
+        part.sample({"population": len(arrays), "D": D, "G": G, "first_depth": n0, "last_depth": n}, limit=1)
+    except Exception as e:
+        et, where, msg = describe_exception(e)
+        if where == "outside-repo":
+            import traceback
+            part.inconc("harness error: " + traceback.format_exc()[-900:])
+        else:
+            part.violation("%s in %s while keying cache arguments" % (et, where), {"msg": msg})
+    tu.compute_log_S.cache_clear()
+    tu._convolve_two_children.cache_clear()
+    return None, part
+
+
 def run(ctx):
     quick = ctx.tier == "quick"
     ctx.rule = ("every call of the five memoised entry points during instrumented chain runs (semi-/fully-adapted/bootstrap, "
                 "outliers on/off, subtree updates, concentration update on, per-iteration clearing) and synthetic call "
                 "histories (children in every order, duplicated children, one-ulp neighbours, alternating alpha with and "
                 "without clearing, equal parents through different objects / sibling orders) is shadowed by the wrapped "
-                "original on the same arguments at that moment; distinct = chain config / synthetic case")
+                "original on the same arguments at that moment; cache keys of 3e5-1.5e6 distinct likelihood arrays per "
+                "process collected, any two different arrays with equal keys played through the memoised function; "
+                "distinct = chain config / synthetic case")
     ctx.assumptions = ["one grid shape per process", "arrays compared on entries above 1e-60 of the row peak (data inside "
                        "the C02 window), 1e-9 relative"]
     shards = 16
@@ -290,6 +371,11 @@ def run(ctx):
     ctx.map("checks.c14", "fft_task", tasks, timeout=3000)
     if ctx.counters.get("fft_pairwise_convolution_hits", 0) < 4:
         ctx.inconc("FFT-path pairwise cache hits not observed")
+    tasks = [{"seed": ctx.seed, "shard": i, "population": 300000 if quick else 1500000, "D": 1 + i % 2, "G": [5, 11, 3, 21][i % 4]}
+             for i in range(4 if quick else 16)]
+    ctx.map("checks.c14", "collision_task", tasks, timeout=3000)
+    if ctx.counters.get("cache_keys_collected", 0) < 1000000:
+        ctx.inconc("fewer than 1e6 cache keys collected")
     for name, m in MIN_HITS.items():
         if ctx.counters.get(name + "_hits", 0) < m:
             ctx.inconc("cache %s: only %d hits observed (minimum %d)" % (name, ctx.counters.get(name + "_hits", 0), m))
